@@ -2,11 +2,13 @@
 """Applies every seeded change under seeded/<id>/ to a scratch copy of /repo
 (never to /repo itself), runs the quick tier of the property's check against it
 (and of any extra checks listed in meta.json "also"), and writes
-seeded/RESULTS.md.  usage: run-seeded.py [id-prefix ...] [--tier quick|thorough]"""
+seeded/RESULTS.md.  usage: run-seeded.py [id-prefix ...] [--thorough] [--seed=N] [--out=FILE]"""
 import sys, os, json, subprocess, shutil, time, glob
 VERIF = os.path.dirname(os.path.dirname(os.path.abspath(__file__)))
 args = [a for a in sys.argv[1:] if not a.startswith("--")]
 tier = "thorough" if "--tier=thorough" in sys.argv or "--thorough" in sys.argv else "quick"
+seed = next((a.split("=")[1] for a in sys.argv if a.startswith("--seed=")), os.environ.get("VERIF_SEED", "0"))
+outf = next((a.split("=")[1] for a in sys.argv if a.startswith("--out=")), None)
 rows = []
 for d in sorted(glob.glob(os.path.join(VERIF, "seeded", "*", ""))):
     sid = os.path.basename(os.path.dirname(d))
@@ -23,16 +25,18 @@ for d in sorted(glob.glob(os.path.join(VERIF, "seeded", "*", ""))):
         continue
     for c in checks:
         t0 = time.time()
-        env = dict(os.environ, OVNI_REPO=dst, VERIF_EVIDENCE_DIR=os.path.join(dst, "_evidence"))
+        env = dict(os.environ, VERIF_SEED=seed, OVNI_REPO=dst, VERIF_EVIDENCE_DIR=os.path.join(dst, "_evidence"))
         p = subprocess.run([os.path.join(VERIF, "bin", "check"), c, "--tier", tier], env=env, capture_output=True, text=True)
         viol = [l for l in p.stdout.splitlines() if "violation in part" in l or "corpus case fails" in l]
         res = {0: "missed", 1: "CAUGHT"}.get(p.returncode, "error rc=%d" % p.returncode)
         rows.append((sid, c, res, "%.0fs" % (time.time() - t0), (viol[0][:200] if viol else "")))
         print(rows[-1], flush=True)
     shutil.rmtree(dst, ignore_errors=True)
-out = ["# Seeded changes vs checks (%s tier)\n" % tier, "| seeded change | check | result | time | first report |", "|---|---|---|---|---|"]
+out = ["# Seeded changes vs checks (%s tier, VERIF_SEED=%s)\n" % (tier, seed), "| seeded change | check | result | time | first report |", "|---|---|---|---|---|"]
 for r in rows:
     out.append("| %s | %s | %s | %s | %s |" % tuple(str(x).replace("|", "/") for x in r))
-path = os.path.join(VERIF, "seeded", "RESULTS.md" if not args else "RESULTS-partial.md")
+own = [r for r in rows if r[1] == json.load(open(os.path.join(VERIF, "seeded", r[0], "meta.json")))["property"]] if rows and rows[0][2] != "PATCH DOES NOT APPLY" else []
+out.append("\nown-property check: %d of %d seeded changes caught" % (sum(1 for r in own if r[2] == "CAUGHT"), len(own)))
+path = outf or os.path.join(VERIF, "seeded", "RESULTS.md" if not args else "RESULTS-partial.md")
 open(path, "w").write("\n".join(out) + "\n")
 print("wrote", path)
